@@ -602,7 +602,7 @@ def removeKeyV (σ : State) (l : Loc) (k : Bytes) : Except Err State := do
 def clearV (σ : State) (l : Loc) : Except Err State := do
   let v ← readLoc σ l
   match handleOf v with
-  | some id => let (σ1, _) ← resizeAt false σ l id 0; pure σ1     -- never grows
+  | some id => let (σ1, _) ← resizeAt true σ l id 0; pure σ1      -- never grows
   | none => pure σ
 
 /-- the loop of `extend` over the held Dic (block `sid`): `foreach2(k, x, src) if (x.ok()) (*_o)[k] = x;` — the
